@@ -1,9 +1,9 @@
 (** Property C18 — directory diffs are exact and safely ordered.
     This file holds only the property theorems; each is closed by [exact] of a lemma
-    proved in [Util/DiffProofs.v], [Util/DiffProofs2.v] or [Util/DiffProofs3.v] and followed by
+    proved in [Util/DiffProofs.v], [Util/DiffProofs2.v], [Util/DiffProofs3.v] or [Util/DiffProofs4.v] and followed by
     [Print Assumptions]; the [Example]s show that the statements are not vacuous. *)
 From Coq Require Import List String Bool.
-From MV Require Import Base.Cmp Util.Diff Util.DiffProofs Util.DiffProofs2 Util.DiffProofs3.
+From MV Require Import Base.Cmp Util.Diff Util.DiffProofs Util.DiffProofs2 Util.DiffProofs3 Util.DiffProofs4.
 Import ListNotations.
 Local Open Scope string_scope.
 Local Open Scope list_scope.
@@ -66,6 +66,49 @@ Theorem C18_script_correct : forall a b, canone a = true -> canone b = true ->
 Proof. exact script_correct. Qed.
 Print Assumptions C18_script_correct.
 
+(** [annotate(base_dir)], a third view of the same listing ([t] = the directory as it is on
+    disk now; the code's [{}] for an empty diff is modelled as it is, so the two coverage
+    clauses carry [is_empty = false]): for a non-empty diff the keys are exactly the paths that
+    changed plus the paths existing in [t]; in particular every path of the new snapshot is a
+    key when the directory is the new snapshot; no key occurs twice (the association list is a
+    faithful dict); and every value is what [get] returns for its key. *)
+Theorem C18_annotate_covers : forall a b t,
+  canone a = true -> canone b = true -> canone t = true ->
+  (is_empty (dirdiff a b) = false ->
+     forall q, In q (map fst (annotate (dirdiff a b) t)) <->
+               osub a q <> osub b q \/ (q <> [] /\ osub t q <> None)) /\
+  (is_empty (dirdiff a b) = false ->
+     forall q, osub b q <> None -> In q (map fst (annotate (dirdiff a b) b))) /\
+  NoDup (map fst (annotate (dirdiff a b) t)) /\
+  (forall q v, In (q, v) (annotate (dirdiff a b) t) -> v = get (dirdiff a b) q).
+Proof. exact annotate_covers. Qed.
+Print Assumptions C18_annotate_covers.
+
+(** The order a packer relies on: the items of [annotate] are the listed nodes in [nodes()]
+    order followed by node-less entries; a loop over the items that skips the [None] entries
+    therefore sees exactly the listing, and performing one shallow step per entry is never
+    refused and turns the old snapshot into the new one. *)
+Theorem C18_annotate_order : forall a b t, canone a = true -> canone b = true ->
+  (exists rest, annotate (dirdiff a b) t =
+                map (fun n => (npath n, Some n)) (listing (dirdiff a b)) ++
+                map (fun p => (p, None)) rest) /\
+  ann_script (annotate (dirdiff a b) t) = listing (dirdiff a b) /\
+  run_script (ann_script (annotate (dirdiff a b) t)) a = Some b.
+Proof. exact annotate_order. Qed.
+Print Assumptions C18_annotate_order.
+
+(** [prev_type] / [curr_type] of a reported node are the kinds of the old / new entry of its
+    path; with non-empty leaf strings, "no previous type" means added and "no current type"
+    means removed. *)
+Theorem C18_node_types : forall a b, canone a = true -> canone b = true ->
+  forall n, In n (listing (dirdiff a b)) ->
+    type_of (nprev n) = type_of (osub a (npath n)) /\
+    type_of (ncurr n) = type_of (osub b (npath n)) /\
+    (leafoke a = true -> (type_of (nprev n) = None <-> nstatus n = Added)) /\
+    (leafoke b = true -> (type_of (ncurr n) = None <-> nstatus n = Removed)).
+Proof. exact node_types. Qed.
+Print Assumptions C18_node_types.
+
 (** ** Non-vacuity: a pair with a removed directory, a file -> directory replacement,
     an unchanged file and an added directory. *)
 
@@ -113,4 +156,22 @@ Example ex_script :
   run_script (rev (listing (dirdiff ex_prev ex_curr))) ex_prev = None /\
   run_script (filter (fun n => Nat.leb (List.length (npath n)) 1) (listing (dirdiff ex_prev ex_curr)))
              ex_prev = None.
+Proof. vm_compute. repeat split; reflexivity. Qed.
+
+(** [annotate] on the new snapshot: the eight nodes in listing order, then the unchanged file
+    [c]; on an empty diff the code (and the model) returns nothing. *)
+Example ex_annotate :
+  map (fun kv => (fst kv, dstatus (snd kv))) (annotate (dirdiff ex_prev ex_curr) ex_curr) =
+  [(["a"; "x"], Removed); (["a"; "y"], Removed); (["a"], Removed);
+   (["b"], Modified); (["b"; "z"], Added); ([], Modified);
+   (["d"], Added); (["d"; "e"], Added); (["c"], Unchanged)] /\
+  annotate (dirdiff ex_prev ex_prev) ex_prev = [].
+Proof. vm_compute. split; reflexivity. Qed.
+
+Example ex_types :
+  map (fun n => (type_of (nprev n), type_of (ncurr n))) (listing (dirdiff ex_prev ex_curr)) =
+  [(Some TFile, None); (Some TFile, None); (Some TDir, None);
+   (Some TFile, Some TDir); (None, Some TSym); (Some TDir, Some TDir);
+   (None, Some TDir); (None, Some TFile)] /\
+  leafoke ex_prev = true /\ leafoke ex_curr = true.
 Proof. vm_compute. repeat split; reflexivity. Qed.
